@@ -1343,6 +1343,10 @@ class Machine:
                 return None if r is FALL else r
             finally:
                 self.depth -= 1
+        if '_distribution::operator()' in callee:
+            # a draw from a random distribution: a fresh atom per call site evaluation (two draws are never identified)
+            self.draws = getattr(self, 'draws', 0) + 1
+            return Poly.atom(('draw', callee.split('::')[1], self.draws))
         # opaque call
         keys = [self.keyof(a) for a in argv]
         if len(keys) == 2 and keys[0] == keys[1]:
@@ -1513,3 +1517,31 @@ def stores(st, root):
         if r == root:
             out[(k, q)] = v
     return [(k, v, q) for (k, q), v in out.items()]
+
+
+def pythagoras(p):
+    """rewrite sqrt(q)^2 -> q and cos(a)^2 -> 1 - sin(a)^2 in every monomial (enough to decide unit-norm identities of
+    angle / radius parameterisations); other factors are kept"""
+    out = Poly()
+    for mono, c in p.t.items():
+        term = Poly.const(c)
+        for atom, e in mono:
+            if isinstance(atom, tuple) and len(atom) >= 3 and atom[0] == 'app' and atom[1] == 'sqrt' and e >= 2:
+                q = from_key(atom[2])
+                for _ in range(e // 2):
+                    term = term * q
+                if e % 2:
+                    term = term * Poly.atom(atom)
+            elif isinstance(atom, tuple) and len(atom) >= 3 and atom[0] == 'app' and atom[1] == 'cos' and e >= 2:
+                s2 = Poly.atom(('app', 'sin') + tuple(atom[2:]))
+                one_minus = Poly.const(1) - s2 * s2
+                for _ in range(e // 2):
+                    term = term * one_minus
+                if e % 2:
+                    term = term * Poly.atom(atom)
+            else:
+                a = Poly.atom(atom)
+                for _ in range(e):
+                    term = term * a
+        out = out + term
+    return out
